@@ -17,7 +17,7 @@ import numpy as np
 
 from acnportal.acnsim import Simulator
 from acnportal.acnsim.events import EventQueue, PluginEvent
-from acnportal.acnsim.models import EV, Battery
+from acnportal.acnsim.models import EV, Battery, Linear2StageBattery
 from acnportal.acnsim.models.evse import EVSE
 from acnportal.contrib.acnsim.network import stochastic_network as SN
 from acnportal.algorithms import UncontrolledCharging
@@ -187,10 +187,20 @@ def direct_once(early, ops, chooser):
                                 full.append((s_, e_.session_id))
                     net.post_charging_update()
                     if early:
-                        for s_, sid in full:
-                            if wait:
-                                st[s_] = wait.pop(0)
+                        # any min(#satisfied, #waiting) of the satisfied EVs may give way to the first waiters (see run_once)
+                        kk = min(len(full), len(wait))
+                        occ_now, _ = real()
+                        freed = [(s_, sid) for s_, sid in full if occ_now.get(s_) != sid]
+                        if kk and len(freed) == kk and sorted(str(occ_now[s_]) for s_, _ in freed) == sorted(str(w) for w in wait[:kk]):
+                            for s_, sid in freed:
+                                st[s_] = occ_now[s_]
                                 gone.add(sid)
+                            del wait[:kk]
+                        else:
+                            for s_, sid in full:
+                                if wait:
+                                    st[s_] = wait.pop(0)
+                                    gone.add(sid)
                 occ, wq = real()
                 if wq:
                     waited = True
@@ -248,7 +258,12 @@ def build(item, chooser_shim=None):
     events = []
     for j, ti in enumerate(item["types"]):
         a, d, e = TYPES[ti]
-        if e == "met":
+        if e == "met" and j % 2 == 1:
+            # satisfied without ever being full to the last watt-hour: a two-stage battery whose free capacity equals the
+            # request approaches it asymptotically (within 1e-3 kWh - the library's notion of fully charged - after one period)
+            req = 0.45 + 0.01 * j
+            batt = Linear2StageBattery(req, 0.0, 7.0)
+        elif e == "met":
             batt, req = Battery(10.0, 5.0, 7.0), 0.4 + 0.01 * j  # met within one 5-minute period at 32 A
         else:
             batt, req = Battery(100.0, 0.0, 7.0), 60.0
@@ -383,12 +398,29 @@ def run_once(item, chooser, collect=None):
         elif kind == "period-end":
             pending["in_period_end"] = False
             if m.early:
-                for s, sid in pending["full"]:
-                    if m.wait:
-                        m.st[s] = m.wait.pop(0)
-                        m.gone.add(sid)
-                        m.early_unplug += 1
-                        m.swaps += 1
+                # k = min(#satisfied, #waiting) satisfied EVs give up their space and the FIRST k waiters take the
+                # freed stations. WHICH of several satisfied EVs leaves, and which freed station a waiter gets, is not
+                # fixed by the property: any such outcome is accepted and the model follows the real placement.
+                full = pending["full"]
+                k = min(len(full), len(m.wait))
+                occ_now, _ = real_place()
+                freed = [(s_, sid_) for s_, sid_ in full if occ_now.get(s_) != sid_]
+                if k and len(freed) == k and sorted(str(occ_now[s_]) for s_, _ in freed) == sorted(str(w) for w in m.wait[:k]):
+                    for s_, sid_ in freed:
+                        m.st[s_] = occ_now[s_]
+                        m.gone.add(sid_)
+                    del m.wait[:k]
+                    m.early_unplug += k
+                    m.swaps += k
+                else:
+                    # not an admissible outcome (or nothing to do): step the reference in station order, the
+                    # comparison below then shows the difference
+                    for s_, sid_ in full:
+                        if m.wait:
+                            m.st[s_] = m.wait.pop(0)
+                            m.gone.add(sid_)
+                            m.early_unplug += 1
+                            m.swaps += 1
             info["periods"] += 1
             if compare("end of period %d" % sim._iteration):
                 if net.early_unplug != m.early_unplug:
